@@ -45,6 +45,60 @@ Definition enc (o : outcome) : Z * Z * list Z :=
 """
 
 
+# Anchored expressions (DESIGN.md §3.1, "anchored-expression mode"): Model/Restart.v and Model/Recovery.v transliterate
+# these source expressions of the reload; each must still be present verbatim (whitespace-insensitive). They are re-read
+# from the tree under test on every run; a miss is a broken obligation (§9 search for a failing input, then VIOLATION
+# with or without one). A tripwire for edits of exactly these lines, not evidence of their correctness.
+ANCHORS = [
+    ("replay-iff-id-above-monitor", "lightning/src/ln/channelmanager.rs", 1,
+     r"let replay = update\.update_id > \$monitor\.get_latest_update_id\(\);"),
+    ("completed-iff-id-at-most-monitor", "lightning/src/ln/channelmanager.rs", 1,
+     r"update\.update_id <= \$monitor\.get_latest_update_id\(\) \}\) \.count\(\);"),
+    ("all-completed-is-count-equality", "lightning/src/ln/channelmanager.rs", 1,
+     r"let all_updates_completed = num_updates_completed == \$chan_in_flight_upds\.len\(\);"),
+    ("stale-four-counters", "lightning/src/ln/channelmanager.rs", 1,
+     r"if channel\.get_cur_holder_commitment_transaction_number\(\) > monitor\.get_cur_holder_commitment_number\(\) \|\| "
+     r"channel\.get_revoked_counterparty_commitment_transaction_number\(\) > monitor\.get_min_seen_secret\(\) \|\| "
+     r"channel\.get_cur_counterparty_commitment_transaction_number\(\) > monitor\.get_cur_counterparty_commitment_number\(\) \|\| "
+     r"channel\.context\.get_latest_monitor_update_id\(\) < monitor\.get_latest_update_id\(\) \{"),
+    ("stale-close-id-is-monitor-plus-one", "lightning/src/ln/channelmanager.rs", 1,
+     r"let latest_update_id = monitor\.get_latest_update_id\(\)\.saturating_add\(1\); update\.update_id = latest_update_id;"),
+    ("closed-ids-entry-is-max", "lightning/src/ln/channelmanager.rs", 2,
+     r"\.and_modify\(\|v\| \*v = cmp::max\(latest_update_id, \*v\)\) \.or_insert\(latest_update_id\);"),
+    ("closed-monitor-threshold", "lightning/src/ln/channelmanager.rs", 1,
+     r"if !monitor\.no_further_updates_allowed\(\) \|\| monitor\.get_latest_update_id\(\) > 1 \{ "
+     r"should_queue_fc_update = !monitor\.no_further_updates_allowed\(\); let mut latest_update_id = monitor\.get_latest_update_id\(\);"),
+    ("closed-monitor-close-id", "lightning/src/ln/channelmanager.rs", 1,
+     r"update_id: monitor\.get_latest_update_id\(\)\.saturating_add\(1\), updates: vec!\[ChannelMonitorUpdateStep::ChannelForceClosed \{ should_broadcast: true, \}\],"),
+    ("dangerous-iff-unblocked-above-max", "lightning/src/ln/channelmanager.rs", 1,
+     r"if funded_chan\.get_latest_unblocked_monitor_update_id\(\) > max_in_flight_update_id \{"),
+    ("attempt-unblock-iff-blocked-left", "lightning/src/ln/channelmanager.rs", 1,
+     r"if funded_chan\.blocked_monitor_updates_pending\(\) > 0 \{ pending_background_events\.push\( BackgroundEvent::AttemptUnblockMonitorUpdates \{"),
+    ("drop-blocked-through-monitor-id", "lightning/src/ln/channelmanager.rs", 1,
+     r"channel\.on_startup_drop_completed_blocked_mon_updates_through\( &logger, monitor\.get_latest_update_id\(\), \);"),
+    ("drop-blocked-iff-id-at-most", "lightning/src/ln/channel.rs", 1,
+     r"self\.context\.blocked_monitor_updates\.retain\(\|update\| \{ if update\.update\.update_id <= loaded_mon_update_id \{"),
+    ("unblocked-id-is-first-blocked-minus-one", "lightning/src/ln/channel.rs", 1,
+     r"self\.blocked_monitor_updates\[0\]\.update\.update_id - 1"),
+]
+
+
+def check_anchors():
+    bad = []
+    cache = {}
+    for (name, rel, count, pat) in ANCHORS:
+        path = os.path.join(core.REPO, rel)
+        if path not in cache:
+            try:
+                cache[path] = re.sub(r"\s+", " ", open(path).read())
+            except OSError:
+                cache[path] = ""
+        n = len(re.findall(pat, cache[path]))
+        if n != count:
+            bad.append({"anchor": name, "file": rel, "expected_occurrences": count, "found": n, "pattern": pat})
+    return bad
+
+
 def plan(ctx):
     if ctx.tier == "quick":
         return 12, 8
@@ -189,6 +243,11 @@ def run(ctx):
     if HAVE_COQ:
         model_ok, outm = ctx.coq_make(["Model/Restart.vo"])
         proved = ctx.prove("C10")
+    # ---- anchored expressions the hand models transliterate (re-read from the tree under test)
+    anchor_bad = check_anchors()
+    for (name, rel, count, _) in ANCHORS:
+        hit = [a for a in anchor_bad if a["anchor"] == name]
+        ctx.obligations.append(("anchor:" + name, not hit, "expression present in %s" % rel if not hit else "expected %d occurrence(s), found %d" % (count, hit[0]["found"])))
     nsc, per = plan(ctx)
     lines, meta = gen_trials(ctx, nsc, per)
     results = run_trials(ctx, lines, "main")
@@ -250,6 +309,8 @@ def run(ctx):
         broken.append({"obligation": "Coq proof of Props/C10.v", "detail": getattr(ctx, "proof_failure", None)})
     if corr_dis:
         broken.append({"correspondence": "h_restart reload outcomes vs Model/Restart.v", "first_disagreements": corr_dis[:3], "n": len(corr_dis)})
+    if anchor_bad:
+        broken.append({"anchored_expressions_changed": anchor_bad})
     if broken and not failing:
         xl, xm = gen_trials(ctx, max(4, nsc // 2), per, "search")
         xr = run_trials(ctx, xl, "search")
@@ -263,7 +324,7 @@ def run(ctx):
             ctx.violation("C10 violated on the implementation (%s): %s" % (found[2][0]["judge"], found[2][0]["what"]),
                           {"broken": broken, "trial": found[0], "violations": found[2][:5], "result": T.summarize(found[1])}, True)
         else:
-            ctx.violation("C10 no longer shown: " + ("proof" if (HAVE_COQ and not proved) else "model/implementation correspondence") + " broken",
+            ctx.violation("C10 no longer shown: " + ("proof" if (HAVE_COQ and not proved) else ("model/implementation correspondence" if corr_dis else "a source expression the model transliterates changed")) + " broken",
                           {"broken": broken, "search": "implementation-side judges on %d + %d further trials found no failing input" % (len(lines), len(xl))}, False)
     ctx.write_evidence(LEVEL)
 
